@@ -1,9 +1,55 @@
-(* C02 — a deployment is refused only when no plan under the strategy's rule exists. *)
-From Coq Require Import String ZArith List.
-From Verif Require Import Base.GoInt Strategy.Model Strategy.ProofsOld.
+(* C02 — a deployment is refused only when no plan under the strategy's rule exists.
 
-(* the code before the repair (fix: FILL ... overflow) violated the property *)
+   [feasible s need limit infos] (Strategy/Model.v) is the reference feasibility:
+     AUTO: need <= sum of room n, room n = min(cap n, max(0, limit - count n)) (cap n when limit = 0);
+     GLOBAL / DRAINED: need <= sum of capacities (mathematical sum);
+     EACH: limit' <= #nodes, 1 <= limit', limit' <= #{cap >= need};
+     FILL: the same with #{count + cap >= need}  (mathematical +).
+   [total = satsum caps] is the saturating sum the caller passes. *)
+From Coq Require Import String ZArith List.
+From Verif Require Import Base.GoInt Strategy.Model Strategy.ProofsBase Strategy.Proofs
+  Strategy.ProofsOk Strategy.ProofsOld.
+Local Open Scope Z_scope.
+
+Theorem C02_complete : forall infos need limit total,
+  valid_infos infos -> 0 < need -> 0 <= limit ->
+  forall s, s <> Other -> need <= max_int -> total = satsum (map cap infos) ->
+  (feasible s need limit infos = true -> exists p, is_plan (deploy s need limit infos total) p) /\
+  (feasible s need limit infos = false ->
+     deploy s need limit infos total = Err EInsufficientResource \/
+     deploy s need limit infos total = Err EInsufficientCapacity).
+Proof. exact Proofs.C02_complete. Qed.
+Print Assumptions C02_complete.
+
+(* whatever total the caller passes: the outcome is a plan or an insufficient-* refusal
+   (never a panic, never fuel exhaustion of the model) *)
+Theorem C02_total_outcome : forall infos need limit total,
+  valid_infos infos -> 0 < need -> 0 <= limit ->
+  forall s, s <> Other ->
+  (exists p, is_plan (deploy s need limit infos total) p) \/
+  (deploy s need limit infos total = Err EInsufficientResource \/
+   deploy s need limit infos total = Err EInsufficientCapacity).
+Proof. exact deploy_total_outcome. Qed.
+Print Assumptions C02_total_outcome.
+
+(* the code before the repair (/repo: "fix: FILL skips a node with unlimited capacity ...")
+   violated the property: a feasible request was refused *)
 Theorem C02_fill_old_refuted :
   feasible Fill 3 0 w_fill = true /\ fill_old w_fill 3 0 = Err EInsufficientResource.
 Proof. exact fill_old_refuted. Qed.
 Print Assumptions C02_fill_old_refuted.
+
+Theorem C02_ok_sound_on_model : forall s need limit infos total ord,
+  C02_ok (mkCase s need limit infos total (deploy s need limit infos total) ord) = true.
+Proof. exact C02_ok_model. Qed.
+Print Assumptions C02_ok_sound_on_model.
+
+(* meaning of a passing check on an implementation output *)
+Theorem C02_ok_meaning : forall c, valid_case c = true -> c_total c = satsum (map cap (c_infos c)) ->
+  C02_ok c = true ->
+  (feasible (c_strat c) (c_need c) (c_limit c) (c_infos c) = true ->
+     exists p, o_res c = Ok p \/ o_res c = AlreadyFilled p) /\
+  (feasible (c_strat c) (c_need c) (c_limit c) (c_infos c) = false ->
+     o_res c = Err EInsufficientResource \/ o_res c = Err EInsufficientCapacity).
+Proof. exact ProofsOk.C02_ok_meaning. Qed.
+Print Assumptions C02_ok_meaning.
